@@ -23,3 +23,21 @@ package stage
 //@   loop 0 invariant 0 <= i && i <= j && j == len(cmp.Parts) && k == j && replaced == nil
 //@   loop 0 invariant forall(m, 0, i, cmp.Parts[m].End <= beg)
 //@   loop 0 decreases j - i
+
+//@ func companionPartExists
+//@   requires cmp != nil && wf(cmp.Parts)
+//@   ensures  sound: result && beg < end ==> forall(x, beg, end, cov(cmp.Parts, x))
+//@   modifies nothing
+
+//@ func isCompanionComplete
+//@   requires cmp != nil && wf(cmp.Parts)
+//@   ensures  sound: result ==> cmp.Size > 0 && forall(x, 0, cmp.Size, cov(cmp.Parts, x))
+//@   modifies nothing
+//@   loop 0 invariant -1 <= rangeindex && rangeindex <= len(cmp.Parts) - 2
+//@   loop 0 invariant covered-prefix: forall(m, 0, rangeindex+2, forall(x, 0, cmp.Parts[m].End, cov(cmp.Parts, x)))
+
+// ---------------------------------------------------------------- C01: process
+
+//@ func (*Stage).getFileState inline
+//@ func (*Stage).process
+//@   before call os.Rename assert validated-needs-hash-match: called(fileutil.FileMD5) && lastret(fileutil.FileMD5, 1) == nil && lastret(fileutil.FileMD5, 0) == file.hash
